@@ -30,8 +30,11 @@ Exprs1 == Leaves \cup {[op |-> o, l |-> a, r |-> b] : o \in {"+", "-", "*"}, a \
 Exprs2 == {[op |-> o, l |-> a, r |-> b] : o \in {"+", "-", "*"}, a \in Exprs1, b \in {[op |-> "n", v |-> 2], [op |-> "-", l |-> [op |-> "n", v |-> 1], r |-> [op |-> "n", v |-> 7]]}}
 NumCases == { [cmd |-> "less_than", a |-> a, b |-> b, exp |-> LessThan(a, b)] : a \in NumPool, b \in NumPool }
      \cup { [cmd |-> "greater_than", a |-> a, b |-> b, exp |-> GreaterThan(a, b)] : a \in NumPool, b \in NumPool }
+\* out of domain: at least one operand is not a number (also twice the same text): the error result, not a truth value
+BadNumTexts == {"abc", "", "1,5", "0x10"}
+NumBadCases == { [cmd |-> c, a |-> x, b |-> y] : c \in {"less_than", "greater_than"}, x \in BadNumTexts \cup {"1"}, y \in BadNumTexts \cup {"1"} } \ { [cmd |-> c, a |-> "1", b |-> "1"] : c \in {"less_than", "greater_than"} }
 CalcCases == { [e |-> e, exp |-> Calc(e)] : e \in Exprs1 \cup Exprs2 }
 RangeCases == { [a |-> a, b |-> b, exp |-> RangeList(a, b)] : a \in (0 - 2)..3, b \in (0 - 2)..4 }
-EmitNum == (EMIT /\ s = <<>>) => PrintT(<<"NUMCASES", ToJson([cmp |-> SetToSeq(NumCases), calc |-> SetToSeq(CalcCases), range |-> SetToSeq(RangeCases)])>>)
+EmitNum == (EMIT /\ s = <<>>) => PrintT(<<"NUMCASES", ToJson([cmp |-> SetToSeq(NumCases), badcmp |-> SetToSeq(NumBadCases), calc |-> SetToSeq(CalcCases), range |-> SetToSeq(RangeCases)])>>)
 Emit == EMIT => PrintT(<<"CASES", ToJson([unit |-> Unit, plain |-> SetToSeq(Cases1 \cup CasesT), indexed |-> SetToSeq(CasesI)])>>)
 =============================================================================
